@@ -120,6 +120,9 @@ static SIMLOG: SimLog = SimLog;
 
 pub fn global_init(run_once: RunOnce) {
     let _ = RUN_ONCE.set(run_once);
+    // error chains must not carry captured backtraces (slow, and not part of the diagnostics)
+    std::env::set_var("RUST_LIB_BACKTRACE", "0");
+    std::env::set_var("RUST_BACKTRACE", "0");
     let _ = log::set_logger(&SIMLOG);
     log::set_max_level(log::LevelFilter::Warn);
     // Prime shuttle once so that its own panic hook is installed (it does so exactly once, wrapping
@@ -262,6 +265,37 @@ pub fn snapshot(loc: &Path) -> Snapshot {
     s
 }
 
+fn set_tree_times(_root: &Path, ws: &Path, cfg: &Path, secs: i64) {
+    fn walk(p: &Path, secs: i64) {
+        if let Ok(c) = std::ffi::CString::new(p.to_string_lossy().as_bytes()) {
+            let t = libc::timespec { tv_sec: secs, tv_nsec: 0 };
+            let times = [t, t];
+            unsafe {
+                libc::utimensat(libc::AT_FDCWD, c.as_ptr(), times.as_ptr(), libc::AT_SYMLINK_NOFOLLOW);
+            }
+        }
+        if let Ok(md) = std::fs::symlink_metadata(p) {
+            if md.is_dir() {
+                if let Ok(rd) = std::fs::read_dir(p) {
+                    for e in rd.flatten() {
+                        walk(&e.path(), secs);
+                    }
+                }
+                // the directory's own mtime again (reading does not change it, but be explicit)
+                if let Ok(c) = std::ffi::CString::new(p.to_string_lossy().as_bytes()) {
+                    let t = libc::timespec { tv_sec: secs, tv_nsec: 0 };
+                    let times = [t, t];
+                    unsafe {
+                        libc::utimensat(libc::AT_FDCWD, c.as_ptr(), times.as_ptr(), 0);
+                    }
+                }
+            }
+        }
+    }
+    walk(ws, secs);
+    walk(cfg, secs);
+}
+
 /// Give every file below `loc` a distinct, old modification time so that any later write is
 /// visible as an mtime change regardless of the file system's timestamp granularity.
 pub fn age_files(loc: &Path) {
@@ -313,6 +347,13 @@ pub fn run_invocation(scratch: &mut Scratch, tree: &Tree, inv: &Inv, out: &Path)
     scratch.materialise(tree);
     let cfg_path = scratch.root.join("typeshare.toml");
     std::fs::write(&cfg_path, &inv.config).expect("config write");
+    // clock-skew fault: the source tree (and the config file) carry timestamps older than every
+    // output file, or from the future; a correct tool never looks at them
+    match inv.src_age {
+        1 => set_tree_times(&scratch.root, &scratch.ws(), &cfg_path, 500_000_000),
+        2 => set_tree_times(&scratch.root, &scratch.ws(), &cfg_path, 4_000_000_000),
+        _ => {}
+    }
     if inv.fresh_out {
         scratch.clear_dir(out);
     }
@@ -392,7 +433,10 @@ pub fn run_invocation(scratch: &mut Scratch, tree: &Tree, inv: &Inv, out: &Path)
                 }
             };
             let err_text = match &c.cli_result {
-                Some(Err(e)) => ctx::scrub(&c.root, e),
+                Some(Err(e)) => {
+                    let e = e.split("\n\nStack backtrace:").next().unwrap_or(e);
+                    ctx::scrub(&c.root, e)
+                }
                 _ => String::new(),
             };
             // panics raised by shuttle itself (deadlock report) are not panics of the system
